@@ -369,12 +369,16 @@ def lex_positions(prj, newlines: list, offsets: list):
         if isinstance(f, tuple) and f and f[0] == "method" and f[2] in ("get_tokens_unprocessed",):
             return [(o, Sym("Name"), f"t{o}") for o in offsets]
         return NotImplemented
-    it = MiniInterp(prj, hook)
+    it = MiniInterp(prj, hook, max_steps=400000)
+    # a text consistent with the newline table (newline characters exactly at the given offsets), for forms of lex that derive
+    # the table from the text themselves
+    n_chars = max(list(offsets) + list(newlines) + [0]) + 4
+    text = "".join("\n" if i in set(newlines) else "x" for i in range(n_chars))
     args = []
     for p in fi.params():
         if p == "filter_comments":
             break
-        args.append(Sym(p, _open=True))
+        args.append(text if p in ("code", "text", "source") else Sym(p, _open=True))
     r = it.call(fi, args, {})
     r = list(r.rest()) if hasattr(r, "rest") else r
     out = []
